@@ -117,6 +117,11 @@ func daemonMain(self string) {
 	default:
 		daemon.Done()
 	}
+	if bin := os.Getenv("C20_EXEC_AFTER_DONE"); bin != "" {
+		// a wrapper daemon: once it has reported, it turns into the real service - same process, another program
+		os.WriteFile(filepath.Join(dir, fmt.Sprintf("after-done.%d", os.Getpid())), []byte("x"), 0o644)
+		syscall.Exec(bin, []string{"sleep", "45"}, os.Environ())
+	}
 	if os.Getenv("C20_SHORT_LIVED") != "" {
 		return // a one-shot daemon: its work was done before Done(), it reports and leaves
 	}
@@ -179,6 +184,7 @@ type kase struct {
 	shortLived       bool // the handler returns right after Done(): Launch still reports the pid it ran under
 	ignoresSigint    bool // the caller child runs with SIGINT ignored (nohup, background job)
 	rendezvous       bool // concurrent launches only: every daemon waits (up to 3 s) for its peers to have started before it calls Done()
+	execs            bool // after Done() the handler replaces its process image (syscall.Exec) and lives on as another program
 	childOnly        bool // the first launch asks for a handler that is registered in the re-executed processes only
 	doneFrom         int  // 0: Done() is called by the handler's goroutine; 1: by another goroutine; 2: by a goroutine locked to a thread that ends with it
 }
@@ -223,6 +229,9 @@ func (k kase) String() string {
 	if k.childOnly {
 		s += " handlerRegisteredInTheReexecutedProcessOnly"
 	}
+	if k.execs {
+		s += " daemonExecsAnotherProgramAfterDone"
+	}
 	if k.rendezvous && k.concurrent > 1 {
 		s += " daemonsWaitForEachOtherBeforeDone"
 	}
@@ -262,6 +271,7 @@ func alive(pid int) bool {
 var envMu sync.Mutex // in-process Launch reads os.Environ(): one case at a time
 
 var selfExe, _ = os.Executable()
+var sleepBin, _ = exec.LookPath("sleep")
 
 func runCase(k kase) string {
 	if !k.childCaller {
@@ -283,6 +293,9 @@ func runCase(k kase) string {
 		env["C20_SHORT_LIVED"] = "1"
 	}
 	env["C20_DONE_FROM"] = strconv.Itoa(k.doneFrom)
+	if k.execs && sleepBin != "" {
+		env["C20_EXEC_AFTER_DONE"] = sleepBin
+	}
 	if k.rendezvous && k.concurrent > 1 {
 		env["C20_RENDEZVOUS"] = strconv.Itoa(k.concurrent)
 	}
@@ -653,6 +666,7 @@ func TestGenerated(t *testing.T) {
 		k.ignoresSigint = k.childCaller && rapid.IntRange(0, 2).Draw(t, "callerIgnoresSIGINT") == 0
 		k.doneFrom = rapid.SampledFrom([]int{0, 0, 1, 2}).Draw(t, "doneCalledFrom")
 		k.rendezvous = k.concurrent > 1 && !k.nested && rapid.IntRange(0, 3).Draw(t, "daemonsWaitForEachOther") == 0
+		k.execs = !k.shortLived && k.doneFrom == 0 && rapid.IntRange(0, 4).Draw(t, "daemonExecsAfterDone") == 0
 		k.childOnly = !k.afterFailed && rapid.IntRange(0, 4).Draw(t, "handlerKnownToTheReexecutedProcessOnly") == 0
 		msg := runCase(k)
 		if strings.HasPrefix(msg, "harness:") {
@@ -688,6 +702,9 @@ func TestGenerated(t *testing.T) {
 		}
 		if k.childOnly {
 			ev.Label("handler_registered_in_the_re-executed_process_only")
+		}
+		if k.execs {
+			ev.Label("daemon_execs_another_program_after_Done")
 		}
 		if k.rendezvous && k.concurrent > 1 {
 			ev.Label("daemons_wait_for_each_other_before_Done")
